@@ -529,18 +529,19 @@ func (b *BaseStore) Load(ctx context.Context, amount int) error {
 
 	// @FIXME(gfanton): chan progress should be created and close on ipfs-log
 	progress := make(chan ifacelog.IPFSLogEntry)
-	defer close(progress)
+	progressDone := make(chan struct{})
+	// the fetcher sends on this unbuffered channel for as long as it fetches,
+	// whatever the state of ctx: keep receiving until the channel is closed,
+	// and only return from Load once the reader is done
+	defer func() {
+		close(progress)
+		<-progressDone
+	}()
 	go func() {
-		for {
-			var entry ifacelog.IPFSLogEntry
-			select {
-			case <-ctx.Done():
-				return
-			case entry = <-progress:
-				if entry == nil {
-					// should not happen
-					return
-				}
+		defer close(progressDone)
+		for entry := range progress {
+			if entry == nil {
+				continue
 			}
 
 			b.recalculateReplicationStatus(entry.GetClock().GetTime())
